@@ -46,6 +46,8 @@ def gen_cases(tier, seed):
                 ords = ords[:2]
             for o in ords:
                 yield {"check": "maps", "h": dict(base, kind="sptensor", order=list(o))}
+        if n >= 2:
+            yield {"check": "maps", "h": {"kind": "tensor", "shape": list(s), "vseed": seed, "grown": True}}
         # dense with a zero pattern too (one representative)
         if n >= 2:
             yield {"check": "maps", "h": {"kind": "tensor", "shape": list(s), "vseed": seed,
